@@ -41,7 +41,8 @@ FDEFAULT = ['snapshot_date', 'path', 'chunk_count', 'size', 'mtime']
 EMPTY = '--'
 CMD_TIMEOUT = 120      # a command that hangs is reported, not waited for
 
-REL_PATHS = ['a.txt', 'b.log', 'dir/a.txt', 'dir/b.log', 'dir/sub/c.dat', 'x_y.txt', 'z', 'data.bin', 'notes.md', 'dir/sub/deep/e.txt']
+REL_PATHS = ['a.txt', 'b.log', 'dir/a.txt', 'dir/b.log', 'dir/sub/c.dat', 'x_y.txt', 'z', 'data.bin', 'notes.md', 'dir/sub/deep/e.txt',
+             'aa.txt', 'dir/bb.txt', 'dir/ee.log', 'oo.md']
 # paths that differ from another path only by case (the scratch file system is case-sensitive)
 CASE_PAIRS = [['Makefile', 'makefile'], ['README.md', 'readme.md'], ['dir/A.TXT', 'dir/a.txt'], ['Z', 'z'], ['dir/Notes.MD', 'dir/notes.md']]
 SIZES = [0, 0, 1, 15, 64, 100, 999, 1000, 1001, 1005, 1015, 1125, 1375, 1995, 2500, 4321, 12345]
@@ -55,6 +56,12 @@ FILE_RES = [r'\.txt$', r'\.log$', r'/dir/', r'/dir/sub/', r'^/.*\.dat$', r'[xy]_
             r'/Makefile$', r'/makefile$', r'README', r'readme\.md$', r'\.TXT$', r'\.txt$', r'/[A-Z][^/]*$', r'/[a-z]+$', r'/Z$', r'notes\.md$|A\.TXT$',
             r'\.MD$', r'DIR/', r'Src/']
 NOTES = [None, None, 'first', 'two words', '', 'x-1']
+# Patterns with groups and back-references, given next to other patterns.  With '|'.join a numbered
+# back-reference keeps its meaning as long as no EARLIER pattern has a capturing group (the shifted case
+# and inline global flags are the known finding, probed separately); named groups work anywhere.
+NUMBERED_FILE_RES = [r'/(\w)\1\.txt$', r'/([a-z])\1\.[a-z]+$', r'notes|/(\w)\1\.log$', r'/(o)\1\.md$|/z$']
+NAMED_FILE_RES = [r'(?P<d>[a-z])(?P=d)\.log$', r'/(?P<x>\w)(?P=x)\.(?:txt|md)$']
+NOGROUP_FILE_RES = [p for p in FILE_RES if re.compile(p).groups == 0]
 
 
 # --------------------------------------------------------------------------- plans (pure data, JSON)
@@ -140,6 +147,8 @@ def gen_sre(rng, nsnaps):
         [['exact', i], ['exact', j]], [['prefix', i, 6], ['suffix', j, 6]], [['raw', '^[0-7]']], [['raw', '[89a-f]$']],
         [['raw', 'a.*b']], [['raw', '^$']], [['raw', '']], [['raw', '^[0-9a-f]+$']], [['location', i]], [['raw', '^snapshots/']],
         [['raw', '-']], [['tagprefix', i]], [['raw', '^[0-3]'], ['raw', '^[c-f]']], [['notprefix', i]],
+        [['exact', i], ['raw', r'^(.)\1']], [['raw', r'([0-9a-f])\1\1'], ['prefix', j, 6]], [['suffix', i, 5], ['raw', r'(?P<h>[0-9a-f])(?P=h)(?P=h)'], ['prefix', j, 4]],
+        [['raw', '^[0-3]'], ['raw', '^(?:[4-7])'], ['raw', r'^(..)\1|^(?:ff)']], [['raw', r'(?P<h>[0-9a-f])(?P=h)(?P=h)$']],
         [['upper', i]], [['upperprefix', i, rng.choice([6, 12])]], [['raw', '[A-F]']], [['upper', i], ['exact', j]], [['raw', '^[0-9A-F]+$']],
     ])
     return one
@@ -149,9 +158,19 @@ def gen_fre(rng):
     k = rng.random()
     if k < 0.3:
         return None
-    if k < 0.8:
-        return [rng.choice(FILE_RES)]
-    return rng.sample(FILE_RES, 2)
+    if k < 0.7:
+        return [rng.choice(FILE_RES + NUMBERED_FILE_RES + NAMED_FILE_RES)]
+    if k < 0.82:
+        return rng.sample(FILE_RES, 2)
+    # two or more patterns, one of them with a back-reference: selected iff at least one pattern alone is found
+    form = rng.random()
+    if form < 0.35:
+        return [rng.choice(NUMBERED_FILE_RES)] + rng.sample(FILE_RES, rng.choice([1, 2]))
+    if form < 0.7:
+        return rng.sample(NOGROUP_FILE_RES, rng.choice([1, 2])) + [rng.choice(NUMBERED_FILE_RES)] + rng.sample(FILE_RES, rng.choice([0, 1]))
+    ps = rng.sample(FILE_RES, rng.choice([1, 2])) + [rng.choice(NAMED_FILE_RES)]
+    rng.shuffle(ps)
+    return ps
 
 
 def gen_cols(rng, names):
@@ -187,6 +206,7 @@ def gen_plan(rng, idx, big=False):
             paths += [p for p in pair if p not in paths]
     state, snaps = {}, []
     vseed = rng.randrange(1 << 30)
+    forced = [1_000_000, 999_999, 1_000_001] if (big and idx == 0) else []
     for i in range(nsnaps):
         # the tree evolves: paths appear, change content, keep content with a new mtime, disappear
         for p in paths:
@@ -203,6 +223,8 @@ def gen_plan(rng, idx, big=False):
                 vseed += 1
                 keep_content = state[p] is not None and r > 0.9
                 size = rng.choice(BIG_SIZES) if (big and rng.random() < 0.25) else rng.choice(SIZES)
+                if forced:
+                    size = forced.pop(0)        # every run lists files of exactly 10**6 - 1, 10**6, 10**6 + 1 bytes
                 kind = state[p].get('kind', 'rand') if keep_content else rng.choice(['rand', 'rand', 'rand', 'zeros', 'rep'])
                 others = [v for q, v in state.items() if q != p and v is not None]
                 if not keep_content and others and rng.random() < 0.2:
@@ -1001,11 +1023,43 @@ def probe_regex_combination(scratch: Path, rep: Report):
                 'replay': {'probe': 'regex_combination', 'patterns': ps, 'subject': subject}})
 
 
+def probe_bytes_to_human(rep: Report):
+    """The size formatter at and around every unit boundary (function level: 10**9 bytes are not
+    affordable as files): the printed text must be the independently formatted one, use the unit of
+    the model's bth_unit, and convert back to the value within printing precision."""
+    from replicat.utils import bytes_to_human
+    values = [0, 1, 9, 10, 99, 100, 999, 1000, 1001, 1004, 1005, 1006, 9999, 10_000, 99_999, 100_000, 999_994, 999_995, 999_999,
+              10 ** 6, 10 ** 6 + 1, 1_005_000, 10 ** 7, 999_999_999, 10 ** 9 - 5_000_001, 10 ** 9, 10 ** 9 + 1, 1_500_000_000, 10 ** 10, 123_456_789_012]
+    res = core.coq_eval_files([('c15_bth', 'From Coq Require Import List NArith String.\nFrom Replicat Require Import Model.Select.\n'
+                                'Import ListNotations.\nLocal Open Scope N_scope.\nEval vm_compute in map bth_unit [%s].\n' % '; '.join(map(str, values)))])
+    rc, text = res['c15_bth']
+    model = core.parse_coq_term(core.parse_coq_values(text)[-1]) if rc == 0 else None
+    if model is None:
+        rep.disagreements.append({'what': 'the model of bytes_to_human could not be evaluated: ' + text[-600:], 'replay': None})
+    for k, v in enumerate(values):
+        rep.count('probe=bytes_to_human')
+        got = bytes_to_human(v)
+        d, u = unit_of(v)
+        want = fmt_size(v, d, u)
+        m = re.fullmatch(r'([0-9]+(?:\.[0-9]+)?(?:e\+[0-9]+)?)([BKMG])', got)
+        back = float(m.group(1)) * {'B': 1, 'K': 10 ** 3, 'M': 10 ** 6, 'G': 10 ** 9}[m.group(2)] if m else None
+        # two decimal places of the unit, six significant digits
+        ok_back = back is not None and abs(back - v) <= max(0.005 * d, v * 5e-6) * (1 + 1e-9)
+        if (want is not None and got != want) or not ok_back:
+            rep.violations.append({'what': f'bytes_to_human({v}) = {got!r}: ' + (f'expected {want!r}' if want is not None and got != want else '')
+                                   + ('' if ok_back else f' reads back as {back} bytes'),
+                                   'signature': {'kind': 'bytes_to_human', 'value': v}, 'replay': {'probe': 'bytes_to_human', 'value': v}})
+        if model is not None:
+            rep.traces_validated += 1
+            if m and (model[k][0], model[k][1]) != ({'B': 1, 'K': 10 ** 3, 'M': 10 ** 6, 'G': 10 ** 9}[m.group(2)], m.group(2)):
+                rep.disagreements.append({'what': f'bytes_to_human({v}) = {got!r}, model unit {model[k]}', 'replay': {'probe': 'bytes_to_human', 'value': v}})
+
+
 # --------------------------------------------------------------------------- the check
 RULE = ('case = one history: 2-8 snapshots by up to 3 users (own / same family other key / other family) of an evolving tree '
         '(paths appear, change, keep content with a new mtime, disappear; path pairs differing only by case; identical copies, all-zero and repeated-block files; some files appended to / truncated between being read and being stat-ed; a quarter of the snapshots re-recorded in the pre-1.3 seconds metadata format) at scripted pairwise distinct utcnow() instants '
         '(same second different microseconds incl. 0, second...year roll-overs, years 1..9999, not in chronological order; one history in six under a daylight-saving TZ with readings in the skipped / repeated hour), '
-        'then restore / list-snapshots / list-files queries with 0-2 snapshot and file patterns each and every kind of column '
+        'then restore / list-snapshots / list-files queries with 0-3 snapshot and file patterns each (some with numbered / named back-references) and every kind of column '
         'selection, refused deletes, a delete by printed names, and the queries again; non-trivial = at least two readable '
         'snapshots share a path with different versions; distinct = distinct plan')
 
@@ -1079,6 +1133,7 @@ def run(ctx) -> Report:
     plans = [gen_plan(ctx.rng, i, big=i < nbig) for i in range(n)]
     check_plans(plans, ctx.scratch, rep)
     probe_regex_combination(ctx.scratch, rep)
+    probe_bytes_to_human(rep)
     rep.notes.append('two snapshots with textually equal timestamps are outside the property\'s quantifier and are not generated; '
                      'restore and the listings then fall back to the (unordered) load order')
     return rep
@@ -1100,6 +1155,8 @@ def replay(ctx, obj):
     case = obj.get('replay') or {}
     if case.get('probe') == 'regex_combination':
         probe_regex_combination(ctx.scratch, rep)
+    elif case.get('probe') == 'bytes_to_human':
+        probe_bytes_to_human(rep)
     elif isinstance(case.get('plan'), dict):
         check_plans([case['plan']], ctx.scratch, rep)
     elif obj.get('kind') == 'broken-obligation':
